@@ -745,4 +745,45 @@ theorem decode_conservative (E : Env) (C : Conv) (chain : Bool) (t : SType) (s :
 
 example : flat exIntOrString = true ∧ flat exR1 = false := by decide
 
+/-! ## 11. the length family on xs:QName / xs:NOTATION: exempted on the atomic types, counting items on lists -/
+
+/-- a restriction of a LIST is never exempted, whatever the item type is (xs:QName included): its length-family
+    facets stay in force (and count items: `facet_length`, `list_itemwise`) -/
+theorem list_length_never_exempt (item : SType) (ws : WsMode) (pat : Option Nat) (fs : List Facet) :
+    applyExempt (.restr (.list item) ws pat fs) = .restr (.list (applyExempt item)) ws pat fs := by
+  simp [applyExempt, lenExemptRoot, exemptFacets]
+
+/-- the same through further derivation steps over the list, and over unions -/
+theorem list_length_never_exempt_chain (base : SType) (ws : WsMode) (pat : Option Nat) (fs : List Facet)
+    (h : lenExemptRoot base = false) :
+    applyExempt (.restr base ws pat fs) = .restr (applyExempt base) ws pat fs := by
+  simp [applyExempt, exemptFacets, h]
+
+example (item : SType) (ws : WsMode) (fs : List Facet) :
+    lenExemptRoot (.restr (.restr (.list item) ws none fs) ws none fs) = false := by simp [lenExemptRoot]
+
+/-- on an atomic type whose primitive type is xs:QName / xs:NOTATION no length-family facet is checked, every other
+    facet is kept as declared -/
+theorem atomic_qname_length_exempt (base : SType) (ws : WsMode) (pat : Option Nat) (fs : List Facet)
+    (h : lenExemptRoot base = true) :
+    ∃ fs', applyExempt (.restr base ws pat fs) = .restr (applyExempt base) ws pat fs' ∧
+      (∀ f ∈ fs', f.isLengthFamily = false) ∧
+      (∀ f ∈ fs, f.isLengthFamily = false → f ∈ fs') ∧ fs'.length = fs.length := by
+  refine ⟨exemptFacets true fs, by simp [applyExempt, h], ?_, ?_, by simp [exemptFacets]⟩
+  · intro f hf
+    simp only [exemptFacets, if_true, List.mem_map] at hf
+    obtain ⟨g, -, rfl⟩ := hf
+    cases hg : g.isLengthFamily
+    · simpa using hg
+    · simp [Facet.isLengthFamily]
+  · intro f hf hn
+    simp only [exemptFacets, if_true, List.mem_map]
+    exact ⟨f, hf, by simp [hn]⟩
+
+/-- a facet that is not checked never fails -/
+theorem skipped_facet_ok (E : Env) (v : Val) : Facet.skip.ok E v = true := rfl
+
+example : lenExemptRoot (.restr (.builtin { prim := .string, ws := .collapse, lenExempt := true }) .collapse none []) = true ∧
+    lenExemptRoot (.list (.builtin { prim := .string, ws := .collapse, lenExempt := true })) = false := by decide
+
 end XsVerif.Props.C02
